@@ -14,7 +14,7 @@ CLAIMED = {
   "technique": "Coq proof (big-step characterisation of the fill loop + composition of reads); differential run model vs C; C-only API oracles",
  },
  "C09": {
-  "text": "Theorems: tree_decode.c build_tree never leaves its arrays, terminates and keeps the tree 'closed' for EVERY code-length vector and every prior tree state (uint16 and uint8 elements); read_from_tree on a closed tree stays in bounds, moves strictly forward and ends within tree_len steps for any input bits; lha_decoder_read never faults and never returns more than asked for any inner decoder. Per-decoder never-fault theorems (null, lz5, lzs, bit reader) are added as they are completed; lh_new/lh1/pm1/pm2 bodies are so far covered by the tree theorems, the correspondence and the sanitizer oracle only.",
+  "text": "Theorems: tree_decode.c build_tree never leaves its arrays, terminates and keeps the tree 'closed' for EVERY code-length vector and every prior tree state (uint16 and uint8 elements); read_from_tree on a closed tree stays in bounds, moves strictly forward and ends within tree_len steps for any input bits; lha_decoder_read never faults and never returns more than asked for any inner decoder. Whole-decoder theorems: null, lz5, lzs and the six lh_new instances (lhnew_never_faults for ANY callback incl. endless input; lhnew_read_returns when the input ends; params_ok facts about the regenerated constants, e.g. COPY_THRESHOLD+255 <= max_read, by vm_compute), bit reader for any callback. lh1/pm1/pm2 bodies are so far covered by the tree theorems, the correspondence and the sanitizer oracle only (proofs in progress).",
   "note": "Array extents and table sizes regenerated from the C on every run; out-of-bounds accesses that land in valid memory are invisible to the sanitizer oracle and are covered only where a theorem exists.",
   "technique": "Coq proof of array-bounds invariants (closed-tree invariant, loop measures); grammar-aimed differential run against an ASan+bounds+null build",
  },
